@@ -97,3 +97,98 @@ Proof.
   cbn [render]. simpl String.eqb. cbv iota. rewrite Hp. destruct els as [|e0 er]; [contradiction|].
   apply (render_list_ref_gen c None (e0 :: er) name He).
 Qed.
+
+(* ---------------- the page's markup does not depend on the inserted texts ---------------- *)
+Section node_induction.
+Variable P : node -> Prop.
+Hypothesis Ht : forall s, P (NText s).
+Hypothesis Hr : forall n, P (NRef n).
+Hypothesis Hs : forall name body els, Forall P body -> Forall P els -> P (NSection name body els).
+Fixpoint node_ind' (n : node) : P n :=
+  match n with
+  | NText s => Ht s
+  | NRef x => Hr x
+  | NSection nm b e =>
+      Hs nm b e
+         ((fix go (l : list node) : Forall P l :=
+             match l with [] => Forall_nil P | x :: r => Forall_cons x (node_ind' x) (go r) end) b)
+         ((fix go (l : list node) : Forall P l :=
+             match l with [] => Forall_nil P | x :: r => Forall_cons x (node_ind' x) (go r) end) e)
+  end.
+End node_induction.
+
+(* two start-up failures have the same SHAPE when both or neither parsed as a traceback and the two file lists
+   have the same lengths; the texts themselves are arbitrary *)
+Definition same_shape (c c' : fctx) : Prop :=
+  (match c_parsed c, c_parsed c' with Some _, Some _ | None, None => True | _, _ => False end) /\
+  List.length (c_mon_files c) = List.length (c_mon_files c') /\
+  List.length (c_all_mon_files c) = List.length (c_all_mon_files c').
+
+Definition render_list (c : fctx) (ns : list node) (dot : option string) : string :=
+  (fix render_list (ns : list node) (dot : option string) : string :=
+      match ns with [] => "" | x :: r => render c dot x ++ render_list r dot end) ns dot.
+
+Lemma render_list_skel c c' ns :
+  Forall (fun n => forall d d', skeleton (render c d n) = skeleton (render c' d' n)) ns ->
+  forall d d', skeleton (render_list c ns d) = skeleton (render_list c' ns d').
+Proof.
+  induction 1 as [|x r Hx Hr IH]; intros d d'; [reflexivity|].
+  cbn [render_list]. rewrite !skeleton_app. fold (render_list c r d). fold (render_list c' r d').
+  rewrite (Hx d d'), (IH d d'). reflexivity.
+Qed.
+
+Lemma concat_map_skel {X} (f g : X -> string) : forall (l l' : list X),
+  List.length l = List.length l' ->
+  (forall x y, skeleton (f x) = skeleton (g y)) ->
+  skeleton (String.concat "" (map f l)) = skeleton (String.concat "" (map g l')).
+Proof.
+  assert (Hc : forall (h : X -> string) l, skeleton (String.concat "" (map h l)) =
+                 String.concat "" (map (fun x => skeleton (h x)) l)).
+  { intros h l. induction l as [|a [|b r] IH]; [reflexivity|cbn; reflexivity|].
+    cbn [map String.concat] in *. rewrite !skeleton_app. cbn [skeleton]. rewrite IH. reflexivity. }
+  induction l as [|a r IH]; intros [|b r'] Hl Hfg; try discriminate; [reflexivity|].
+  rewrite !Hc. cbn [map]. injection Hl as Hl.
+  destruct r as [|a2 r2]; destruct r' as [|b2 r2']; try discriminate.
+  - cbn. apply Hfg.
+  - cbn [String.concat map]. cbn [append]. rewrite (Hfg a b). f_equal.
+    specialize (IH (b2 :: r2') Hl Hfg). rewrite !Hc in IH. exact IH.
+Qed.
+
+Theorem render_skeleton c c' : same_shape c c' ->
+  forall n d d', skeleton (render c d n) = skeleton (render c' d' n).
+Proof.
+  intros (Hp & Hm & Ha). induction n as [s|name|name body els Hb He] using node_ind'; intros d d'.
+  - reflexivity.
+  - cbn [render]. rewrite !escape_clean. reflexivity.
+  - pose proof (render_list_skel c c' body Hb) as Lb. pose proof (render_list_skel c c' els He) as Le.
+    cbn [render]. fold (render_list c body). fold (render_list c els). fold (render_list c' body). fold (render_list c' els).
+    destruct (String.eqb name "parsed_err").
+    + destruct (c_parsed c), (c_parsed c'); try contradiction; destruct els; first [apply Lb | apply Le].
+    + set (items := if String.eqb name "mon_files" then c_mon_files c
+                    else if String.eqb name "all_mon_files" then c_all_mon_files c else []).
+      set (items' := if String.eqb name "mon_files" then c_mon_files c'
+                     else if String.eqb name "all_mon_files" then c_all_mon_files c' else []).
+      assert (Hl : List.length items = List.length items').
+      { unfold items, items'. destruct (String.eqb name "mon_files"); [exact Hm|].
+        destruct (String.eqb name "all_mon_files"); [exact Ha|reflexivity]. }
+      destruct items as [|i r]; destruct items' as [|i' r']; try discriminate.
+      * apply Le.
+      * apply (concat_map_skel (fun it => render_list c body (Some it)) (fun it => render_list c' body (Some it))
+                               (i :: r) (i' :: r') Hl). intros x y. apply Lb.
+Qed.
+
+Lemma skeleton_concat {X} (h : X -> string) l :
+  skeleton (String.concat "" (map h l)) = String.concat "" (map (fun x => skeleton (h x)) l).
+Proof.
+  induction l as [|a [|b r] IH]; [reflexivity|cbn; reflexivity|].
+  cbn [map String.concat] in *. rewrite !skeleton_app. cbn [skeleton]. rewrite IH. reflexivity.
+Qed.
+
+(* the markup skeleton of the whole page is a function of the shape alone: whatever the error text, the last line,
+   the exception type and message, the file names are, they cannot add, remove or alter a tag *)
+Theorem page_skeleton c c' ns : same_shape c c' ->
+  skeleton (render_nodes c ns) = skeleton (render_nodes c' ns).
+Proof.
+  intros Hs. unfold render_nodes. rewrite !skeleton_concat. f_equal. apply map_ext. intros n.
+  apply render_skeleton. exact Hs.
+Qed.
